@@ -7,6 +7,8 @@ pub mod c07;
 pub mod c08;
 pub mod c09;
 pub mod c10;
+pub mod c19;
+pub mod c20;
 
 use crate::run::{Runner, Verdict};
 
@@ -34,6 +36,8 @@ pub fn registry(id: &str) -> Option<Entry> {
         "C08" => Entry { run: c08::run, replay: c08::replay, rule: "state = one valid operand; transition = floor/ceil/trunc/round/fract (inherent and num_traits::Float); judged against exact integer arithmetic on hi+lo", assumptions: BASE_ASSUME },
         "C09" => Entry { run: c09::run, replay: c09::replay, rule: "state = one integer value of one of the ten types, one TwoFloat, or one f32; transition = every conversion route (From / TryFrom by value and by reference / ToPrimitive / NumCast / FromPrimitive); judged against exact integer arithmetic", assumptions: BASE_ASSUME },
         "C10" => Entry { run: c10::run, replay: c10::replay, rule: "state = ordered operand pair (valid and reachable non-finite) or a single operand; transition = every spelling of the operation (value/reference/assignment, operand typings, trait vs inherent); oracle = the other spelling, bit-identical words (NaN == NaN; algebraic identities modulo the sign of zero words)", assumptions: BASE_ASSUME },
+        "C19" => Entry { run: c19::run, replay: c19::replay, rule: "state = ordered operand pair; transition = one of the five spellings of %, div_euclid, rem_euclid; judged against the exact truncated / floored integer quotient (binary long division in the long accumulator) with the stated tolerance and near-integer proviso", assumptions: BASE_ASSUME },
+        "C20" => Entry { run: c20::run, replay: c20::replay, rule: "text: state = one valid value, transitions = 54 format calls (3 traits x {plain,+} x 9 precisions) compared with std's f64 renderings and parsed back; serde: state = one environment script (sequence or map the data format offers the visitor, built with serde::de::value deserializers) or one valid value serialised through a recording Serializer; oracle = 20-line acceptance predicate using the exact validity test", assumptions: &["rustc/LLVM, IEEE-754 hardware", "std's f64 formatting and parsing are correct (used as the text oracle)", "serde::de::value::{SeqDeserializer, MapDeserializer} behave as a faithful data format", "tfref::big exact validity predicate"] },
         _ => return None,
     })
 }
